@@ -437,7 +437,7 @@ class Fmt:
         return ['g', float(x)] if self.raw else codes(format(x, 'g'))
 
     def rep(self, x):
-        return ['r', float(x)] if self.raw else codes(str(x))
+        return ['r', float(x)] if self.raw else codes(str(float(x)))
 
     def vec(self, v):
         return [self.coord(v.x), self.coord(v.y), self.coord(v.z)]
@@ -570,7 +570,8 @@ def diff(a, b, path=''):
             return f'{path}: {a!r} vs {b!r}'
         x, y = a[1], b[1]
         if a[0] == 'c':
-            ok = x == y or abs(x - y) <= 5.0000001e-7 or (math.isnan(x) and math.isnan(y))
+            # 5e-7 in real arithmetic; the doubles nearest to x and to the 6-place decimal add up to 2 ulp
+            ok = x == y or abs(x - y) <= 5e-7 + 4 * math.ulp(max(abs(x), abs(y))) or (math.isnan(x) and math.isnan(y))
         elif a[0] == 'g':
             ok = _sig6_close(x, y)
         else:
